@@ -412,28 +412,33 @@ theorem de_outcome (O : Ops F) (y : Nat) (ss : List (List Nat)) (pop : Pop F) (h
 
 theorem iwo_outcome (O : Ops F) (hfin : ∀ x, O.fin x = true) (a b : Nat) (w : Witness F) (pop : Pop F)
     (hev : Evaluated pop) :
-    (select O (.iwo a b) w pop = .error .exec ↔ pop = []) ∧
-    (select O (.iwo a b) w pop = .error .panic ↔ pop ≠ [] ∧ b < a) ∧
+    (select O (.iwo a b) w pop = .error .exec ↔ b < a ∨ pop = []) ∧
+    select O (.iwo a b) w pop ≠ .error .panic ∧
     (pop ≠ [] → a ≤ b → ∃ objs worst bst, objectives pop = some objs ∧ objectiveBounds objs = some (worst, bst) ∧
       select O (.iwo a b) w pop =
         .ok ((pop.zip objs).flatMap fun (ind, o) => List.replicate (iwoCount O a b worst bst o) ind)) := by
   obtain ⟨objs, h1, h2, _⟩ := objectives_of_evaluated hev
   rw [select_iwo]
-  cases pop with
-  | nil => simp
-  | cons x xs =>
-    simp only [h1]
-    cases hb : objectiveBounds objs with
-    | none =>
-      have := objectiveBounds_eq_none.mp hb
-      subst this; simp at h2
-    | some p =>
-      obtain ⟨worst, bst⟩ := p
-      simp only [hfin, Bool.not_true, Bool.false_eq_true, if_false]
-      by_cases hab : b < a
-      · simp [hab]
-      · simp only [hab, if_false]
-        refine ⟨by simp, by simp [hab], fun _ _ => ⟨objs, worst, bst, rfl, hb, rfl⟩⟩
+  by_cases hab : b < a
+  · simp [hab]
+  · simp only [hab, if_false, false_or]
+    cases pop with
+    | nil => simp
+    | cons x xs =>
+      simp only [h1]
+      cases hb : objectiveBounds objs with
+      | none =>
+        have := objectiveBounds_eq_none.mp hb
+        subst this; simp at h2
+      | some p =>
+        obtain ⟨worst, bst⟩ := p
+        simp only [hfin, Bool.not_true, Bool.false_eq_true, if_false]
+        refine ⟨by simp, by simp, fun _ _ => ⟨objs, worst, bst, rfl, hb, rfl⟩⟩
+
+/-- `min_selected > max_selected` is an `Err` on every population, evaluated or not -/
+theorem iwo_min_gt_max (O : Ops F) (a b : Nat) (w : Witness F) (pop : Pop F) (hba : b < a) :
+    select O (.iwo a b) w pop = .error .exec := by
+  rw [select_iwo]; simp [hba]
 
 end
 end MahfModel.Selection
